@@ -1,5 +1,6 @@
 import QProofs.C11
 import QProps.C10
+import QGen.C10
 /-!
 # C11 — loss minimisation attains the constrained optimum: property theorems
 
@@ -315,6 +316,280 @@ theorem stop_mode_guarantees {P : E → E} {C : Set E} (hC : Convex ℝ C) (hP :
     simp only [stopDelta]
     rw [herr, m2, ← hxn] at hstop'
     exact hsq _ hstop' (le_abs_self _)
+
+/-! ## summability of the steps, termination of the line search, eventual stopping -/
+
+/-- loop invariant behind `pgdb_steps_summable` -/
+theorem pgdbLoop_summable {P : E → E} {C : Set E} (hC : Convex ℝ C) (hP : IsProjOn P C) (f : E → ℝ) (g : E → E)
+    (sqrt : ℝ → ℝ) {mu gamma : ℝ} (eps : ℝ) (hmu : 0 < mu) (hgam : 0 ≤ gamma) (mode : StopMode) (numHist btFuel : Nat)
+    (F0 : ℝ) :
+    ∀ (fuel : Nat) (x : E) (errs : List ℝ) (rest : List E) (res : List E × List ℝ), x ∈ C →
+      gamma * mu * sumSqSteps (x :: rest) + f x ≤ F0 →
+      pgdbLoop P f g ip sqrt mu gamma eps mode numHist btFuel fuel x errs (x :: rest) = some res →
+      ∃ v vs, res.1 = v :: vs ∧ gamma * mu * sumSqSteps res.1 + f v ≤ F0 := by
+  intro fuel
+  induction fuel with
+  | zero =>
+    intro x errs rest res _ hinv h
+    simp only [pgdbLoop, Option.some.injEq] at h
+    subst h; exact ⟨x, rest, rfl, hinv⟩
+  | succ fuel ih =>
+    intro x errs rest res hx hinv h
+    unfold pgdbLoop at h
+    cases hs : pgdbStep P f g ip sqrt mu gamma mode btFuel x with
+    | none => simp [hs] at h
+    | some it =>
+      obtain ⟨hdec, _, hmem⟩ := pgdb_step_decrease hC hP f g sqrt hmu hgam mode btFuel hx it hs
+      obtain ⟨_, ha0, ha1, _, hxn, _⟩ :=
+        pgdb_step_feasible hC P (fun w => (hP w).1) f g ip sqrt mu gamma mode btFuel x hx it hs
+      -- ‖x_next − x‖² = α² ‖y‖² ≤ α ‖y‖²
+      have hstep : gamma * mu * ‖it.xNext - x‖ ^ 2 ≤ f x - f it.xNext := by
+        have e : it.xNext - x = it.alpha • it.y := by rw [hxn]; abel
+        rw [e, norm_smul, Real.norm_eq_abs, abs_of_pos ha0]
+        have hy : 0 ≤ ‖it.y‖ ^ 2 := by positivity
+        have h2 : (it.alpha * ‖it.y‖) ^ 2 ≤ it.alpha * ‖it.y‖ ^ 2 := by
+          have : it.alpha ^ 2 ≤ it.alpha := by nlinarith
+          nlinarith
+        have h3 : 0 ≤ gamma * mu := mul_nonneg hgam hmu.le
+        nlinarith
+      have hinv' : gamma * mu * sumSqSteps (it.xNext :: x :: rest) + f it.xNext ≤ F0 := by
+        simp only [sumSqSteps]
+        nlinarith
+      simp only [hs] at h
+      by_cases hd : isDoing (errs ++ [it.err]) numHist eps = true
+      · rw [if_pos hd] at h
+        exact ih it.xNext _ _ res hmem hinv' h
+      · rw [if_neg hd] at h
+        injection h with h; subst h
+        exact ⟨it.xNext, x :: rest, rfl, hinv'⟩
+
+/-- C11.pgdb_steps_summable: along any backtracking run from a feasible start (any mode, window, thresholds, iteration limit) the
+squared step lengths are summable against the loss decrease: `γ μ Σ_k ‖x_{k+1} − x_k‖² ≤ f(x₀) − f(x̂)` — no smoothness
+assumption is needed (the accepted `α ≤ 1` and the descent inequality suffice). -/
+theorem pgdb_steps_summable {P : E → E} {C : Set E} (hC : Convex ℝ C) (hP : IsProjOn P C) (f : E → ℝ) (g : E → E)
+    (sqrt : ℝ → ℝ) {mu gamma : ℝ} (eps : ℝ) (hmu : 0 < mu) (hgam : 0 ≤ gamma) (mode : StopMode)
+    (numHist btFuel maxIter : Nat) {xStart : E} (hs : xStart ∈ C) (x : E) (hist : List E) (errs : List ℝ)
+    (h : pgdbOptimize P f g ip sqrt mu gamma eps mode numHist btFuel maxIter xStart = some (x, hist, errs)) :
+    gamma * mu * sumSqSteps hist ≤ f xStart - f x := by
+  unfold pgdbOptimize at h
+  cases hl : pgdbLoop P f g ip sqrt mu gamma eps mode numHist btFuel maxIter xStart [] [xStart] with
+  | none => simp [hl] at h
+  | some res =>
+    obtain ⟨v, vs, hres, hinv⟩ := pgdbLoop_summable hC hP f g sqrt eps hmu hgam mode numHist btFuel (f xStart) maxIter
+      xStart [] [] res hs (by simp [sumSqSteps]) hl
+    obtain ⟨l, es⟩ := res
+    simp only at hres
+    subst hres
+    simp only [hl] at h
+    by_cases hm : maxIter = 0
+    · simp [hm] at h
+    · simp only [hm, if_false, Option.some.injEq, Prod.mk.injEq] at h
+      obtain ⟨rfl, rfl, _⟩ := h
+      linarith
+
+/-- C11.pgdb_long_steps_bounded: hence a run whose every step is at least `eps` long has at most
+`(f(x₀) − f_low) / (γ μ eps²)` steps, for any lower bound `f_low` of the loss at the returned point: the step-size stopping rule
+(`sum_absolute_difference_variable`) is met after finitely many iterations, with an explicit bound. -/
+theorem pgdb_long_steps_bounded {P : E → E} {C : Set E} (hC : Convex ℝ C) (hP : IsProjOn P C) (f : E → ℝ) (g : E → E)
+    (sqrt : ℝ → ℝ) {mu gamma : ℝ} (eps0 : ℝ) (hmu : 0 < mu) (hgam : 0 ≤ gamma) (mode : StopMode)
+    (numHist btFuel maxIter : Nat) {xStart : E} (hs : xStart ∈ C) (x : E) (hist : List E) (errs : List ℝ)
+    (h : pgdbOptimize P f g ip sqrt mu gamma eps0 mode numHist btFuel maxIter xStart = some (x, hist, errs))
+    {eps fLow : ℝ} (heps : 0 ≤ eps) (hlow : fLow ≤ f x) (hlong : AllStepsGe eps hist) :
+    ((hist.length - 1 : Nat) : ℝ) * (gamma * mu * eps ^ 2) ≤ f xStart - fLow := by
+  have h1 := pgdb_steps_summable hC hP f g sqrt eps0 hmu hgam mode numHist btFuel maxIter hs x hist errs h
+  have h2 := count_le_sumSq heps hist hlong
+  have h3 : 0 ≤ gamma * mu := mul_nonneg hgam hmu.le
+  nlinarith
+
+/-- C11.armijo_accepts_small_steps: if the loss has the quadratic upper bound of an `L`-smooth function
+(`f(v) ≤ f(u) + ⟪∇f(u), v−u⟫ + L/2 ‖v−u‖²`), then from a feasible point every step size `α ≤ 2(1−γ)μ/L` passes the
+sufficient-decrease test as coded. -/
+theorem armijo_accepts_small_steps {P : E → E} {C : Set E} (hP : IsProjOn P C) {f : E → ℝ} {g : E → E} {Lc : ℝ} (hL : 0 < Lc)
+    (hsm : ∀ u v, f v ≤ f u + ⟪g u, v - u⟫ + Lc / 2 * ‖v - u‖ ^ 2) {mu gamma : ℝ} (hmu : 0 < mu) (hgam1 : gamma < 1)
+    {x : E} (hx : x ∈ C) (a : ℝ) (ha : 0 < a) (hle : a ≤ 2 * (1 - gamma) * mu / Lc) :
+    isDoingForAlpha f g ip x (pgdbDir P g mu x) a gamma = false :=
+  armijo_accepts_small hL hsm hgam1 x _ (descent_dir hP g hmu hx) a ha hle
+
+/-- C11.backtrack_terminates: under the same assumption the `while` loop of the line search ends after at most
+`fuel + 1` tests as soon as `2^{-fuel} ≤ 2(1−γ)μ/L` — the iteration as coded never hangs on a smooth convex loss. -/
+theorem backtrack_terminates {P : E → E} {C : Set E} (hP : IsProjOn P C) {f : E → ℝ} {g : E → E} {Lc : ℝ} (hL : 0 < Lc)
+    (hsm : ∀ u v, f v ≤ f u + ⟪g u, v - u⟫ + Lc / 2 * ‖v - u‖ ^ 2) {mu gamma : ℝ} (hmu : 0 < mu)
+    (hgam1 : gamma < 1) (sqrt : ℝ → ℝ) (mode : StopMode) {x : E} (hx : x ∈ C) (fuel : Nat)
+    (hfuel : (1 : ℝ) / 2 ^ fuel ≤ 2 * (1 - gamma) * mu / Lc) :
+    ∃ it, pgdbStep P f g ip sqrt mu gamma mode (fuel + 1) x = some it := by
+  have htau : 0 < 2 * (1 - gamma) * mu / Lc := by
+    have : 0 < 1 - gamma := by linarith
+    positivity
+  obtain ⟨a, ha⟩ := backtrack_terminates_of_threshold f g ip x (pgdbDir P g mu x) gamma _ htau
+    (fun a h0 hle => armijo_accepts_small_steps hP hL hsm hmu hgam1 hx a h0 hle) fuel 1 one_pos hfuel
+  refine ⟨⟨pgdbDir P g mu x, a, x + a • pgdbDir P g mu x,
+    errorValue mode f sqrt (fun v => ip v v) x (x + a • pgdbDir P g mu x) (pgdbDir P g mu x)⟩, ?_⟩
+  simp only [pgdbStep, ha]
+
+/-- C11.pgdb_step_alpha_lower_bound: the accepted step size is bounded below uniformly over the run,
+`α ≥ min(1, (1−γ)μ/L)`, hence each iteration decreases the loss by at least `γ μ min(1,(1−γ)μ/L) ‖y‖²`: the squared
+projected-gradient residuals are summable as well, `Σ_k ‖y_k‖² ≤ (f(x₀) − f*) / (γ μ min(1,(1−γ)μ/L))`, and
+`min_{k<n} ‖y_k‖² = O(1/n)`; with `eps_optimality_certificate` this is an `O(1/√n)` bound on `f(x_k) − min_C f`. -/
+theorem pgdb_step_alpha_lower_bound {P : E → E} {C : Set E} (hC : Convex ℝ C) (hP : IsProjOn P C) {f : E → ℝ} {g : E → E}
+    {Lc : ℝ} (hL : 0 < Lc) (hsm : ∀ u v, f v ≤ f u + ⟪g u, v - u⟫ + Lc / 2 * ‖v - u‖ ^ 2) {mu gamma : ℝ} (hmu : 0 < mu)
+    (hgam0 : 0 < gamma) (hgam1 : gamma < 1) (sqrt : ℝ → ℝ) (mode : StopMode) (btFuel : Nat) {x : E} (hx : x ∈ C)
+    (it : PgdbIter ℝ E) (h : pgdbStep P f g ip sqrt mu gamma mode btFuel x = some it) :
+    min 1 ((1 - gamma) * mu / Lc) ≤ it.alpha ∧
+      f it.xNext ≤ f x - gamma * mu * min 1 ((1 - gamma) * mu / Lc) * ‖it.y‖ ^ 2 := by
+  obtain ⟨hdec, _, _⟩ := pgdb_step_decrease hC hP f g sqrt hmu hgam0.le mode btFuel hx it h
+  obtain ⟨_, ha0, _, hy, _, _⟩ :=
+    pgdb_step_feasible hC P (fun w => (hP w).1) f g ip sqrt mu gamma mode btFuel x hx it h
+  have halpha : min 1 ((1 - gamma) * mu / Lc) ≤ it.alpha := by
+    have hb : backtrack f g ip x (pgdbDir P g mu x) gamma btFuel 1 = some it.alpha := by
+      unfold pgdbStep at h
+      cases hb : backtrack f g ip x (pgdbDir P g mu x) gamma btFuel 1 with
+      | none => simp [hb] at h
+      | some a => simp only [hb, Option.some.injEq] at h; subst h; rfl
+    rcases backtrack_prev_rejected f g ip x (pgdbDir P g mu x) gamma btFuel 1 it.alpha hb with h1 | h1
+    · rw [h1]; exact min_le_left _ _
+    · refine le_trans (min_le_right _ _) ?_
+      by_contra hcon
+      rw [not_le] at hcon
+      have hle : 2 * it.alpha ≤ 2 * (1 - gamma) * mu / Lc := by
+        have : 2 * (1 - gamma) * mu / Lc = 2 * ((1 - gamma) * mu / Lc) := by ring
+        rw [this]; linarith
+      have := armijo_accepts_small_steps hP hL hsm hmu hgam1 hx (2 * it.alpha) (by positivity) hle
+      rw [this] at h1
+      exact Bool.false_ne_true h1
+  refine ⟨halpha, ?_⟩
+  have hy2 : 0 ≤ ‖it.y‖ ^ 2 := by positivity
+  have hgm : 0 ≤ gamma * mu := mul_nonneg hgam0.le hmu.le
+  have : gamma * mu * min 1 ((1 - gamma) * mu / Lc) * ‖it.y‖ ^ 2 ≤ gamma * it.alpha * mu * ‖it.y‖ ^ 2 := by
+    have h1 := mul_le_mul_of_nonneg_left halpha hgm
+    have h2 := mul_le_mul_of_nonneg_right h1 hy2
+    nlinarith
+  linarith
+
+/-- loop invariant behind `pgdb_residuals_summable` -/
+theorem pgdbLoop_residuals {P : E → E} {C : Set E} (hC : Convex ℝ C) (hP : IsProjOn P C) {f : E → ℝ} {g : E → E}
+    {Lc : ℝ} (hL : 0 < Lc) (hsm : ∀ u v, f v ≤ f u + ⟪g u, v - u⟫ + Lc / 2 * ‖v - u‖ ^ 2) (sqrt : ℝ → ℝ) {mu gamma : ℝ} (eps : ℝ)
+    (hmu : 0 < mu) (hgam0 : 0 < gamma) (hgam1 : gamma < 1) (mode : StopMode) (numHist btFuel : Nat) (F0 : ℝ) :
+    ∀ (fuel : Nat) (x : E) (errs : List ℝ) (rest : List E) (res : List E × List ℝ), x ∈ C →
+      gamma * mu * min 1 ((1 - gamma) * mu / Lc) * sumSqResiduals P g mu (x :: rest) + f x ≤ F0 →
+      pgdbLoop P f g ip sqrt mu gamma eps mode numHist btFuel fuel x errs (x :: rest) = some res →
+      ∃ v vs, res.1 = v :: vs ∧ gamma * mu * min 1 ((1 - gamma) * mu / Lc) * sumSqResiduals P g mu res.1 + f v ≤ F0 := by
+  intro fuel
+  induction fuel with
+  | zero =>
+    intro x errs rest res _ hinv h
+    simp only [pgdbLoop, Option.some.injEq] at h
+    subst h; exact ⟨x, rest, rfl, hinv⟩
+  | succ fuel ih =>
+    intro x errs rest res hx hinv h
+    unfold pgdbLoop at h
+    cases hs : pgdbStep P f g ip sqrt mu gamma mode btFuel x with
+    | none => simp [hs] at h
+    | some it =>
+      obtain ⟨_, hdec⟩ := pgdb_step_alpha_lower_bound hC hP hL hsm hmu hgam0 hgam1 sqrt mode btFuel hx it hs
+      obtain ⟨hmem, _, _, hy, _, _⟩ :=
+        pgdb_step_feasible hC P (fun w => (hP w).1) f g ip sqrt mu gamma mode btFuel x hx it hs
+      have hyy : pgdbDir P g mu x = it.y := by rw [hy, pgdbDir_def]
+      have hinv' : gamma * mu * min 1 ((1 - gamma) * mu / Lc) * sumSqResiduals P g mu (it.xNext :: x :: rest) + f it.xNext
+          ≤ F0 := by
+        simp only [sumSqResiduals, hyy]
+        nlinarith
+      simp only [hs] at h
+      by_cases hd : isDoing (errs ++ [it.err]) numHist eps = true
+      · rw [if_pos hd] at h
+        exact ih it.xNext _ _ res hmem hinv' h
+      · rw [if_neg hd] at h
+        injection h with h; subst h
+        exact ⟨it.xNext, x :: rest, rfl, hinv'⟩
+
+/-- C11.pgdb_residuals_summable (convex `L`-smooth case): along any backtracking run from a feasible start the squared
+projected-gradient residuals at the visited points are summable,
+`γ μ min(1,(1−γ)μ/L) · Σ_k ‖P(x_k − ∇f(x_k)/μ) − x_k‖² ≤ f(x₀) − f(x̂)`. -/
+theorem pgdb_residuals_summable {P : E → E} {C : Set E} (hC : Convex ℝ C) (hP : IsProjOn P C) {f : E → ℝ} {g : E → E}
+    {Lc : ℝ} (hL : 0 < Lc) (hsm : ∀ u v, f v ≤ f u + ⟪g u, v - u⟫ + Lc / 2 * ‖v - u‖ ^ 2) (sqrt : ℝ → ℝ) {mu gamma : ℝ} (eps : ℝ)
+    (hmu : 0 < mu) (hgam0 : 0 < gamma) (hgam1 : gamma < 1) (mode : StopMode) (numHist btFuel maxIter : Nat) {xStart : E}
+    (hs : xStart ∈ C) (x : E) (hist : List E) (errs : List ℝ)
+    (h : pgdbOptimize P f g ip sqrt mu gamma eps mode numHist btFuel maxIter xStart = some (x, hist, errs)) :
+    gamma * mu * min 1 ((1 - gamma) * mu / Lc) * sumSqResiduals P g mu hist ≤ f xStart - f x := by
+  unfold pgdbOptimize at h
+  cases hl : pgdbLoop P f g ip sqrt mu gamma eps mode numHist btFuel maxIter xStart [] [xStart] with
+  | none => simp [hl] at h
+  | some res =>
+    obtain ⟨v, vs, hres, hinv⟩ := pgdbLoop_residuals hC hP hL hsm sqrt eps hmu hgam0 hgam1 mode numHist btFuel (f xStart)
+      maxIter xStart [] [] res hs (by simp [sumSqResiduals]) hl
+    obtain ⟨l, es⟩ := res
+    simp only at hres
+    subst hres
+    simp only [hl] at h
+    by_cases hm : maxIter = 0
+    · simp [hm] at h
+    · simp only [hm, if_false, Option.some.injEq, Prod.mk.injEq] at h
+      obtain ⟨rfl, rfl, _⟩ := h
+      linarith
+
+/-- C11.pgdb_rate: consequently a run in which every step was taken from a point with residual `≥ eps` has at most
+`(f(x₀) − f_low) / (γ μ min(1,(1−γ)μ/L) eps²)` steps — after `n` steps some visited point has squared residual
+`≤ (f(x₀) − f_low)/(c n)`: the `O(1/n)` rate of the projected-gradient method with backtracking, the
+`sum_absolute_difference_projected_gradient` rule is met after finitely many iterations, and by
+`eps_optimality_certificate` that point is `eps (‖∇f‖ + μ D)`-optimal. -/
+theorem pgdb_rate {P : E → E} {C : Set E} (hC : Convex ℝ C) (hP : IsProjOn P C) {f : E → ℝ} {g : E → E}
+    {Lc : ℝ} (hL : 0 < Lc) (hsm : ∀ u v, f v ≤ f u + ⟪g u, v - u⟫ + Lc / 2 * ‖v - u‖ ^ 2) (sqrt : ℝ → ℝ) {mu gamma : ℝ} (eps0 : ℝ)
+    (hmu : 0 < mu) (hgam0 : 0 < gamma) (hgam1 : gamma < 1) (mode : StopMode) (numHist btFuel maxIter : Nat) {xStart : E}
+    (hs : xStart ∈ C) (x : E) (hist : List E) (errs : List ℝ)
+    (h : pgdbOptimize P f g ip sqrt mu gamma eps0 mode numHist btFuel maxIter xStart = some (x, hist, errs))
+    {eps fLow : ℝ} (heps : 0 ≤ eps) (hlow : fLow ≤ f x) (hbig : AllResidualsGe P g mu eps hist) :
+    ((hist.length - 1 : Nat) : ℝ) * (gamma * mu * min 1 ((1 - gamma) * mu / Lc) * eps ^ 2) ≤ f xStart - fLow := by
+  have h1 := pgdb_residuals_summable hC hP hL hsm sqrt eps0 hmu hgam0 hgam1 mode numHist btFuel maxIter hs x hist errs h
+  have h2 := count_le_sumSqResiduals P g mu heps hist hbig
+  have hc : 0 ≤ gamma * mu * min 1 ((1 - gamma) * mu / Lc) := by
+    have : 0 < 1 - gamma := by linarith
+    have : 0 ≤ min 1 ((1 - gamma) * mu / Lc) := le_min zero_le_one (by positivity)
+    positivity
+  nlinarith
+
+example : sumSqResiduals (fun z : ℝ => max z 0) (fun u => 2 * u) 1 ([0, 1] : List ℝ) = 1 := by
+  simp [sumSqResiduals, pgdbDir]
+
+/-- non-vacuity of the smoothness / convexity / projection hypotheses together: `E = ℝ`, `f u = u²`, `g u = 2u`, `L = 2`,
+`C = [0, ∞)`. -/
+example : (∀ u v : ℝ, v ^ 2 ≤ u ^ 2 + ⟪(2 * u : ℝ), v - u⟫ + 2 / 2 * ‖v - u‖ ^ 2) ∧
+    (∀ u w : ℝ, u ^ 2 + ⟪(2 * u : ℝ), w - u⟫ ≤ w ^ 2) := by
+  constructor
+  · intro u v
+    simp only [RCLike.inner_apply, conj_trivial, Real.norm_eq_abs, sq_abs]
+    nlinarith [sq_nonneg (v - u)]
+  · intro u w
+    simp only [RCLike.inner_apply, conj_trivial]
+    nlinarith [sq_nonneg (w - u)]
+
+example : sumSqSteps ([3, 1, 0] : List ℝ) = 5 := by
+  simp [sumSqSteps]; norm_num
+
+example : AllStepsGe 1 ([3, 1, 0] : List ℝ) := by
+  simp [AllStepsGe]; norm_num
+
+/-! ## the stopping rules with the thresholds and defaults read from the source -/
+
+/-- C11.gen_stopping_rules: with the constants regenerated from the source (`QGen/C10.lean`):
+the default threshold is `Settings` atol / 10 (the float `1e-13` / `10.0`, within `10⁻²⁹` of `10⁻¹⁴`) and positive, it is what
+`resolveEps` returns for `eps=None`; the default option object (γ = 0.3, μ unset, that threshold) passes
+`is_option_sufficient`; the default rule is `single_difference_loss` with window 1, so by `stop_rule_window_one` a default run
+stops exactly when the last loss decrease is `≤ eps`, the comparison being `value > eps` as coded; each algorithm's
+`error_value` chain lists the four rules in the model's order. -/
+theorem gen_stopping_rules :
+    QGen.C10.defaultEps = QGen.C10.defaultAtol / 10 ∧ 0 < QGen.C10.defaultEps ∧
+    (QGen.C10.defaultEps - 1 / 10 ^ 14 < 1 / 10 ^ 29 ∧ 1 / 10 ^ 14 - QGen.C10.defaultEps < 1 / 10 ^ 29) ∧
+    resolveEps none QGen.C10.defaultAtol QGen.C10.epsDivisor = QGen.C10.defaultEps ∧
+    pgdbOptionSufficient true none (some QGen.C10.defaultGamma) (some QGen.C10.defaultEps) = true ∧
+    (StopMode.ofString? QGen.C10.defaultStopMode, QGen.C10.defaultNumHistory) = (some .singleDiffLoss, 1) ∧
+    (QGen.C10.stopOp, QGen.C10.stopLeft, QGen.C10.stopRight, QGen.C10.stopThen, QGen.C10.stopElse)
+      = ("Gt", "value", "eps", true, false) ∧
+    QGen.C10.errExprPgdb = StopMode.all.map (StopMode.errExpr "y_prev") := by
+  decide +kernel
+
+/-- the generated default threshold, used in the executable stopping rule: a decrease of `10⁻¹⁵` stops, `10⁻¹³` does not -/
+example : isDoing ([1, 1 / 10 ^ 15] : List Rat) QGen.C10.defaultNumHistory QGen.C10.defaultEps = false ∧
+    isDoing ([1, 1 / 10 ^ 13] : List Rat) QGen.C10.defaultNumHistory QGen.C10.defaultEps = true := by
+  decide +kernel
 
 /-! ## D13 — the projection wrapper breaks the descent property (negation witness) -/
 
